@@ -370,14 +370,24 @@ impl<'de, R: Reader<'de>> Deserializer<R> {
             let json = self.parser.read.as_u8_slice();
 
             // get n to check trailing characters in later
-            let n = if cfg.utf8_lossy && self.parser.read.next_invalid_utf8() != usize::MAX {
+            let (n, parsed_len) = if cfg.utf8_lossy
+                && self.parser.read.next_invalid_utf8() != usize::MAX
+            {
                 // repr the invalid utf8, not need to care about the invalid UTF8 char in non-string
                 // parts, it will cause errors when parsing.
-                val.parse_with_padding(String::from_utf8_lossy(json).as_bytes(), cfg)?
+                let repr = String::from_utf8_lossy(json);
+                (val.parse_with_padding(repr.as_bytes(), cfg)?, repr.len())
             } else {
-                val.parse_with_padding(json, cfg)?
+                (val.parse_with_padding(json, cfg)?, json.len())
             };
             self.parser.read.eat(n);
+            // a value that ends beyond the parsed text was completed by the parser's own padding
+            // bytes (`"` would parse as "x"): the input itself is truncated
+            if n > parsed_len {
+                let err = self.parser.error(EofWhileParsing);
+                self.parser.read.set_index(json.len());
+                return Err(err);
+            }
         } else {
             let shared = unsafe {
                 if self.shared.is_none() {
